@@ -42,7 +42,6 @@ from numpy import (  # noqa: F401
 
 from dictIO import Parser, SDict
 from dictIO.types import K, M, V
-from dictIO.utils.counter import DejaVue
 
 __ALL__ = ["DictReader"]
 
@@ -154,21 +153,17 @@ class DictReader:
         comments: bool = True,
     ) -> None:
         """Parse and merge any (child) dicts that are referenced in the dict file through #include directives."""
-        # Create dejavue string watchdog
-        djv = DejaVue()
-        djv.reset()
-
         # Inner function: Merge all includes, recursively
-        def _merge_includes_recursive(parent_dict: SDict[K, V]) -> SDict[K, V]:
+        def _merge_includes_recursive(parent_dict: SDict[K, V], ancestors: tuple[Path, ...]) -> SDict[K, V]:
             # empty dict to merge in temporarily, avoiding dict-has-change-error inside the for loop
             temp_dict: SDict[K, V] = SDict()
 
             # loop over all possible includes
             for _, _, path in parent_dict.includes.values():
-                prove_recursive_include = djv(path.name)
+                resolved_path = path.resolve()
 
-                if prove_recursive_include is True:
-                    call_chain = "->".join(list(djv.strings))
+                if resolved_path in ancestors:
+                    call_chain = "->".join([ancestor.name for ancestor in ancestors] + [path.name])
                     logger.warning(
                         f"Recursive include detected. Merging of {call_chain} into {parent_dict.name} aborted."
                     )
@@ -187,7 +182,7 @@ class DictReader:
 
                     # recursion in case the i-th include also has includes
                     if len(included_dict.includes) != 0:
-                        nested_included_dict = _merge_includes_recursive(parent_dict=included_dict)
+                        nested_included_dict = _merge_includes_recursive(included_dict, (*ancestors, resolved_path))
                         # merge second level
                         temp_dict.merge(nested_included_dict)
 
@@ -200,7 +195,7 @@ class DictReader:
             return parent_dict
 
         # Call inner funtion to merge all includes, recursively
-        parent_dict.merge(_merge_includes_recursive(parent_dict=parent_dict))
+        parent_dict.merge(_merge_includes_recursive(parent_dict, ()))
 
         return
 
